@@ -50,3 +50,8 @@ def shape_key(case, results):
             t = r.req.split()
             return "trk-" + t[1] + ("-invalid-choice" if "invalid-choice" in r.flags else "")
     return "none"
+
+SOURCE_TIE = "Source-level tie by proof (Tie/Compat, Tie/Shares): the compatibility rule of both attribute types as regenerated from the source requires the same scene (and the epoch gap within max_idle, and the constraint table); the own-area shares of a call's detections are computed among the boxes of that scene and call only (simple and batch VisualSORT)."
+LEVEL_TEXT = LEVEL_TEXT + " " + SOURCE_TIE
+TRUSTED_BASE = TRUSTED_BASE + ["translator/kernels.py + rustexpr.py (reader of the Rust subset, per-function tables) for the functions named in SOURCE_TIE; generated definitions are proof obligations (Tie modules) on every run"]
+TECHNIQUE = TECHNIQUE + "; model regenerated from the source by a translator for the functions of SOURCE_TIE, tied by proof"
